@@ -192,6 +192,13 @@ pub fn c15_case(rep: &mut Report, seed: u64, idx: u64, verbose: bool) {
     }
     // ---- monitors over the tap ----
     let taps: Vec<(usize, TapEv)> = rig.world.stations[0].apps.drain_tap();
+    // frames of the station by start time (to read the function code off the wire)
+    let frames_by_start: std::collections::BTreeMap<Us, RTel> = {
+        let bus = rig.world.bus.borrow();
+        bus.trace.iter().filter(|f| f.sender == rig.st_port).filter_map(|f| f.decoded.clone().map(|d| (f.start, d))).collect()
+    };
+    let ttr_us = cfg.bits(cfg.ttr_bits as u64);
+    let mut sent_in_visit = 0u32;
     let n = match &rig.world.stations[0].apps {
         RingApp::Multi(v) => v.len(),
         RingApp::Traffic(_) => 1,
@@ -222,6 +229,7 @@ pub fn c15_case(rep: &mut Report, seed: u64, idx: u64, verbose: bool) {
                     hidx += 1;
                     declined_in_visit.iter_mut().for_each(|d| *d = false);
                     asks_in_visit = 0;
+                    sent_in_visit = 0;
                 }
                 if !holdings.is_empty() && hidx < holdings.len() && *t >= holdings[0].0 {
                     let (a, b) = holdings[hidx];
@@ -267,6 +275,29 @@ pub fn c15_case(rep: &mut Report, seed: u64, idx: u64, verbose: bool) {
                 }
                 asks_in_visit += 1;
                 last_ask = Some((*k, sent.is_some()));
+                if let Some((_, lib_expects)) = sent {
+                    // the reply expectation is read off the wire, not taken from the library
+                    if let Some(RTel::Data { fc, da, .. }) = frames_by_start.get(t) {
+                        let wire_expects = fc.expects_reply();
+                        if wire_expects != lib_expects.is_some() {
+                            viol = Some((
+                                format!("C15/P2/reply-expectation-differs-from-service/fc-{:02x}", fc.to_byte() & 0x8f),
+                                format!("application {} sent a request with function code {:02x} to #{}: the service {} a reply but the station {} one", k, fc.to_byte(), da, if wire_expects { "expects" } else { "does not expect" }, if lib_expects.is_some() { "waits for" } else { "does not wait for" }),
+                            ));
+                            break;
+                        }
+                        rep.count("C15_reply_expectations_checked");
+                    }
+                    // P5: once the hold time is over only the one guaranteed message cycle of the visit may start
+                    if hidx >= 1 && hidx < holdings.len() && *t >= holdings[0].0 && *t >= holdings[hidx].0 && *t <= holdings[hidx].1 {
+                        let deadline = holdings[hidx - 1].0 + ttr_us + cfg.period + cfg.bits(40);
+                        if sent_in_visit >= 1 && *t >= deadline {
+                            viol = Some(("C15/P5/request-after-hold-time".into(), format!("application {} started message cycle no. {} of the token visit at {}us; the hold time ended at {}us (previous receipt {}us + TTR)", k, sent_in_visit + 1, t, deadline, holdings[hidx - 1].0)));
+                            break;
+                        }
+                    }
+                    sent_in_visit += 1;
+                }
                 if let Some((_, Some(addr))) = sent {
                     outstanding = Some((*k, *addr));
                     rep.count("C15_requests_expecting_reply");
